@@ -175,6 +175,21 @@ class AccessMixin:
             ctx.heap[key] = z3.Store(arr, ref, ctx.term(cell, ty))
             self.note_field_write(SV(TRef("?"), ref), key)
 
+    def distinct_count(self, lst, st):
+        """len(set(L)) for a symbolic list L: an uninterpreted cardinality with the facts that decide the usual comparisons -
+        0 <= n <= len(L); n == len(L) iff the members are pairwise distinct; n == 0 iff L is empty; n == 1 iff L is non-empty and all
+        members are equal (all true of the cardinality of the set of members; nothing else is assumed)"""
+        ctx = self.ctx
+        so = sort_of(lst.ty)
+        card = z3.Function("card_" + st.ty.key, sort_of(st.ty), z3.IntSort())
+        n = card(st.t)
+        ln, data = so.len(lst.t), so.data(lst.t)
+        i, j = z3.Int(ctx.fresh_name("i")), z3.Int(ctx.fresh_name("j"))
+        distinct = z3.ForAll([i, j], z3.Implies(z3.And(0 <= i, i < j, j < ln), z3.Select(data, i) != z3.Select(data, j)))
+        same = z3.ForAll([i], z3.Implies(z3.And(0 <= i, i < ln), z3.Select(data, i) == z3.Select(data, 0)))
+        ctx.assume(z3.And(0 <= n, n <= ln, (n == ln) == distinct, (n == 0) == (ln == 0), (n == 1) == z3.And(ln > 0, same)))
+        return SV(INT, n)
+
     def seq_len(self, v):
         ctx = self.ctx
         if getattr(v, "unknown", False):
@@ -190,6 +205,9 @@ class AccessMixin:
                 return len(v.conc)
             if v.kind == "list":
                 return SV(INT, sort_of(v.sym.ty).len(v.sym.t))
+            src = getattr(v, "from_list", None)
+            if v.kind == "set" and src is not None and src[1] is v.sym.t:
+                return self.distinct_count(src[0], v.sym)
             raise Unsupported("len of symbolic dict/set")
         if isinstance(v, Opaque):
             return Opaque("len")
@@ -659,9 +677,56 @@ class AccessMixin:
     def e_DictComp(self, n):
         if self.ctx.spec:
             raise Unsupported("dict comprehension in a specification")
+        try:
+            return self.symbolic_dict_comprehension(n)
+        except Unsupported:
+            pass
         for g in n.generators:
             self.eval_tolerant(g.iter)
         return self.unknown_cell("dict")
+
+    def symbolic_dict_comprehension(self, n):
+        """{key(x): val(x) for x in L} over a symbolic list, one generator, no filter - the exact meaning: the keys are the key(x) of the
+        members; a key maps to val of the LAST member carrying it"""
+        ctx = self.ctx
+        if len(n.generators) != 1 or n.generators[0].ifs:
+            raise Unsupported("dict comprehension shape")
+        g = n.generators[0]
+        it = self.eval(g.iter)
+        if self.iter_items_concrete(it) is not None or isinstance(it, Opaque) or getattr(it, "unknown", False):
+            raise Unsupported("dict comprehension over a concrete / unknown iterable")
+        src_len, elem_at = self.iter_model(it)
+        n_src = ctx.term(src_len, INT)
+
+        def at(idx):
+            self.push_scope()
+            try:
+                self.bind(g.target, elem_at(idx))
+                saved = ctx.spec
+                ctx.spec = True
+                try:
+                    return self.eval(n.key), self.eval(n.value)
+                finally:
+                    ctx.spec = saved
+            finally:
+                self.pop_scope()
+        k, j = z3.Int(ctx.fresh_name("k")), z3.Int(ctx.fresh_name("j"))
+        key_k, val_k = at(k)
+        key_j, _ = at(j)
+        kty, vty = ctx.type_of(key_k), ctx.type_of(val_k)
+        if kty is None or vty is None:
+            raise Unsupported("dict comprehension element types")
+        mty = TMap(kty, vty)
+        so = sort_of(mty)
+        m = z3.Const(ctx.fresh_name("dcomp"), so)
+        kk = z3.Const(ctx.fresh_name("key"), sort_of(kty))
+        tk, tj, tv = ctx.term(key_k, kty), ctx.term(key_j, kty), ctx.term(val_k, vty)
+        ctx.assume(z3.ForAll([kk], z3.Select(so.dom(m), kk) == z3.Exists([k], z3.And(0 <= k, k < n_src, tk == kk))))
+        ctx.assume(z3.ForAll([k], z3.Implies(z3.And(0 <= k, k < n_src), z3.Select(so.dom(m), tk))))
+        ctx.assume(z3.ForAll([k], z3.Implies(z3.And(0 <= k, k < n_src,
+                                                    z3.ForAll([j], z3.Implies(z3.And(k < j, j < n_src), tj != tk))),
+                                             z3.Select(so.val(m), tk) == tv)))
+        return Cell("dict", sym=SV(mty, m), fresh=True)
 
     def iter_items_concrete(self, it):
         """python list of items if the iterable is concrete, else None"""
@@ -805,8 +870,13 @@ class AccessMixin:
         if not g.ifs:
             ctx.assume(s.len(r) == n_src)
             c_k, v_k = body_at(k)
+            pats = [z3.Select(s.data(r), k)]
+            src0 = it.sym if isinstance(it, Cell) else it
+            if isinstance(src0, SV) and src0.ty.name == "List":
+                # also instantiate from the source side: a fact about member k of the source says something about member k of the map
+                pats.append(z3.Select(sort_of(src0.ty).data(src0.t), k))
             ctx.assume(z3.ForAll([k], z3.Implies(z3.And(0 <= k, k < n_src), z3.Select(s.data(r), k) == ctx.term(v_k, ety)),
-                                 patterns=[z3.Select(s.data(r), k)]))
+                                 patterns=pats))
         else:
             ctx.assume(z3.ForAll([k], z3.Implies(z3.And(0 <= k, k < s.len(r)),
                                                  z3.And(0 <= f(k), f(k) < n_src, c_j,
